@@ -62,7 +62,7 @@ def replay_bands(arg):
             continue
         limits = {}
         for t in traces:
-            p = Fraction(t.text.split(' ')[0]).limit_denominator(100)
+            p = Fraction(t.text.split(' ')[0]).limit_denominator(1000)
             x = np.asarray(t.x, dtype=float)
             y = np.asarray(t.y, dtype=float)
             if list(x) != [1.0, 2.0, 2.0, 1.0]:
